@@ -120,6 +120,9 @@ pub enum Item {
 pub struct Iface {
     pub name: String,
     pub items: Vec<Item>,
+    /// local names of `use`d types (name, is_resource): later interfaces may use them from here (chains)
+    #[serde(default)]
+    pub reexports: Vec<(String, bool)>,
 }
 
 impl Iface {
@@ -133,6 +136,7 @@ impl Iface {
                 _ => {}
             }
         }
+        out.extend(self.reexports.iter().cloned());
         out
     }
     pub fn func_names(&self) -> Vec<String> {
@@ -398,6 +402,7 @@ pub fn build_iface(name: &str, tag: &str, spec: &IfaceSpec, earlier: &[((usize, 
     let mut items = vec![];
     let mut taken: std::collections::BTreeSet<String> = Default::default();
     let mut used_from: std::collections::BTreeSet<(usize, usize)> = Default::default();
+    let mut reexports: Vec<(String, bool)> = vec![];
     for (k, it) in spec.items.iter().enumerate() {
         match it {
             ItemSpec::Use { from, picks } => {
@@ -424,6 +429,7 @@ pub fn build_iface(name: &str, tag: &str, spec: &IfaceSpec, earlier: &[((usize, 
                     } else {
                         sc.values.push(local.clone());
                     }
+                    reexports.push((local.clone(), *is_res));
                     out.push((n.clone(), if *rename { Some(local) } else { None }));
                 }
                 if !out.is_empty() {
@@ -492,7 +498,7 @@ pub fn build_iface(name: &str, tag: &str, spec: &IfaceSpec, earlier: &[((usize, 
             }
         }
     }
-    Iface { name: name.to_string(), items }
+    Iface { name: name.to_string(), items, reexports }
 }
 
 pub fn tyspec_strategy() -> impl Strategy<Value = TySpec> {
